@@ -342,6 +342,10 @@ impl SimHooks for Sim {
                 }
             }
             if !ready.is_empty() {
+                // the kernel lists descriptors in the order they became ready, which is real timing:
+                // the batch is handed over in a canonical order (the subject's own tokens), other
+                // orders are the `event-order` choice's business
+                ready.sort_by_key(|e| e.u64);
                 if self.profile.event_order && ready.len() > 1 {
                     match self.chooser.choose("event-order", 3) {
                         1 => ready.reverse(),
